@@ -402,6 +402,17 @@ func otherHeaders(sent []byte) []kv {
 	return out
 }
 
+// minExtra: responses for a vetoing callback get at least two extra headers.
+func minExtra(vetoAt int) int {
+	switch {
+	case vetoAt > 0:
+		return 2
+	case vetoAt < 0:
+		return 1
+	}
+	return 0
+}
+
 // judgeOnHeader checks the OnHeader contract: the callback sees the
 // non-websocket headers in order (a prefix of them if the handshake stops
 // early, all of them on success), is never called again after it returned an
@@ -556,7 +567,11 @@ func judge(o *outcome, r *respgen.Response, cfg respgen.Config, cl respgen.Class
 		return msg
 	}
 	if o.hdrVetoed {
+		hx.Class("onheader/vetoed/" + cl.Verdict.String())
 		return "" // refused by the callback, reported as such (checked above)
+	}
+	if o.vetoAt != 0 {
+		hx.Class("onheader/not-vetoed")
 	}
 	verdict := cl.Verdict
 	if verdict == respgen.MustSucceed && vetoDue {
@@ -796,7 +811,7 @@ func TestResponse(t *testing.T) {
 	hx.Check(t, 8, func(t *rapid.T) {
 		c, _ := genDcfg(t, false)
 		c.HeaderKind, c.Extra = 0, nil
-		r := respgen.Gen(t, "resp", c.Req, respgen.Opts{LongLines: true})
+		r := respgen.Gen(t, "resp", c.Req, respgen.Opts{LongLines: true, MinExtra: minExtra(c.VetoAt)})
 		headLen := len(r.Head(dummyKey))
 		sizes := genChunks(t, headLen)
 		eofwd := rapid.Bool().Draw(t, "eofwd")
@@ -824,7 +839,7 @@ func TestValidResponses(t *testing.T) {
 	hx.Check(t, 4, func(t *rapid.T) {
 		c, _ := genDcfg(t, false)
 		c.HeaderKind, c.Extra = 0, nil
-		r := respgen.Gen(t, "resp", c.Req, respgen.Opts{LongLines: true, ValidOnly: true, MaxTrailing: 400})
+		r := respgen.Gen(t, "resp", c.Req, respgen.Opts{LongLines: true, ValidOnly: true, MaxTrailing: 400, MinExtra: minExtra(c.VetoAt)})
 		headLen := len(r.Head(dummyKey))
 		sizes := genChunks(t, headLen)
 		eofwd := rapid.Bool().Draw(t, "eofwd")
@@ -906,6 +921,7 @@ func TestKeyFreshness(t *testing.T) {
 	d := c.dialer()
 	rand.Seed(c.Seed)
 	seen := map[string]bool{}
+	var bits [128][2]int
 	valid := respgen.Valid()
 	n := 2000
 	for i := 0; i < n; i++ {
@@ -932,9 +948,21 @@ func TestKeyFreshness(t *testing.T) {
 			return
 		}
 		seen[key] = true
+		for b := 0; b < 128; b++ {
+			bits[b][raw[b/8]>>(7-uint(b%8))&1]++
+		}
+	}
+	// "a randomly selected 16-byte value": every one of the 128 bits takes both
+	// values somewhere in the sample (for fair bits the chance of a constant one
+	// among 2000 samples is 128 * 2^-1999).
+	for b := 0; b < 128; b++ {
+		if bits[b][0] == 0 || bits[b][1] == 0 {
+			hx.Failf(t, map[string]int{"bit": b, "zeros": bits[b][0], "ones": bits[b][1]}, "bit %d (byte %d) of the decoded key is constant over %d handshakes: %d zeros, %d ones", b, b/8, n, bits[b][0], bits[b][1])
+			return
+		}
 	}
 	hx.EvalN(n)
-	hx.Part("consecutive dials with pairwise distinct keys", int64(n), false)
+	hx.Part("consecutive dials: pairwise distinct keys, every key bit takes both values", int64(n), false)
 }
 
 // ---------------------------------------------------------------------------
@@ -1066,7 +1094,7 @@ func checkDial(c *dcfg, r *respgen.Response, sizes []int) string {
 func TestDial(t *testing.T) {
 	hx.Check(t, 2, func(t *rapid.T) {
 		c, portForm := genDcfg(t, true)
-		r := respgen.Gen(t, "resp", c.Req, respgen.Opts{ValidOnly: rapid.IntRange(0, 3).Draw(t, "validonly") > 0})
+		r := respgen.Gen(t, "resp", c.Req, respgen.Opts{ValidOnly: rapid.IntRange(0, 3).Draw(t, "validonly") > 0, MinExtra: minExtra(c.VetoAt)})
 		sizes := gen.Chunks(t, "chunks")
 		c.ViaPackage = rapid.IntRange(0, 3).Draw(t, "via_ws_Dial") == 0
 		if c.ViaPackage {
@@ -1923,4 +1951,53 @@ func TestRejectionErrorAccessors(t *testing.T) {
 		}
 	}
 	hx.EvalN(n)
+}
+
+// OnHeader veto: extra headers before, between and after the websocket
+// headers (one of them before a Sec-WebSocket-Extensions line); the callback
+// vetoes the k-th one. The dialer has to return exactly the callback's error
+// and must not call it again.
+func TestOnHeaderVeto(t *testing.T) {
+	if !hx.Mine(5) {
+		return
+	}
+	cfg := respgen.Config{Protocols: []string{"chat"}, Extensions: []respgen.Ext{{Name: "x-a"}}}
+	x := func(i int) respgen.Line {
+		return respgen.Line{Name: fmt.Sprintf("X-Extra-%d", i), Pre: " ", Value: fmt.Sprintf("value %d", i)}
+	}
+	base := respgen.Valid()
+	up, conn, acc := base.Lines[0], base.Lines[1], base.Lines[2]
+	ext := respgen.Line{Name: "Sec-WebSocket-Extensions", Pre: " ", Value: "x-a; p=1"}
+	proto := respgen.Line{Name: "Sec-WebSocket-Protocol", Pre: " ", Value: "chat"}
+	layouts := [][]respgen.Line{
+		{x(1), up, x(2), conn, x(3), acc, x(4)},
+		{up, conn, acc, x(1), x(2), ext},
+		{x(1), x(2), x(3), up, conn, acc, proto, ext},
+		{up, x(1), conn, acc, ext, x(2), proto},
+		{x(1), ext, up, conn, acc},
+	}
+	n := 0
+	for _, lines := range layouts {
+		for veto := -1; veto <= 5; veto++ {
+			for _, lf := range []bool{false, true} {
+				for _, sizes := range [][]int{nil, {1}, {13}} {
+					r := &respgen.Response{Version: "HTTP/1.1", Status: "101", Reason: "Switching Protocols", Trailing: []byte{0x81, 0x00}}
+					r.Lines = append([]respgen.Line(nil), lines...)
+					if lf {
+						r.StatusLF, r.EndLF = true, true
+						for k := range r.Lines {
+							r.Lines[k].LF = true
+						}
+					}
+					c := dcfg{URL: "ws://example.org/", Req: cfg, Seed: 12, VetoAt: veto}
+					n++
+					if !runFixed(t, &c, r, sizes) {
+						return
+					}
+				}
+			}
+		}
+	}
+	hx.EvalN(n)
+	hx.Part("OnHeader: 5 header layouts x veto position (none, record-only, 1..5) x line end x 3 chunkings", int64(n), true)
 }
